@@ -582,16 +582,20 @@ class EncodeCatRows(Filter[Iterable[Union[Any,Dense,Sparse]], Iterable[Union[Any
                     if K: yield [k,K]
             return o
 
-        def catset(o,k):
-            #k is Tuple[key,list]
-            if len(k) == 2 and isinstance(k[1],list):
-                k,K = k
-                row = o[k]
-                row = list(row) if isinstance(row,tuple) else copy(row)
-                o[k] = row
-                catset(row,K)
-            #k is list of keys
-            else:
+        def catset(o,keys):
+            #keys holds the keys of o whose value is categorical and, for
+            #every part of o that holds categoricals deeper down, [key,keys]
+            k = []
+            for _k in keys:
+                if isinstance(_k,list):
+                    _k,K = _k
+                    row = o[_k]
+                    row = list(row) if isinstance(row,tuple) else copy(row)
+                    o[_k] = row
+                    catset(row,K)
+                else:
+                    k.append(_k)
+            if k:
                 if get_string:
                     for _k in k:
                         o[_k] = str(o[_k])
@@ -618,14 +622,8 @@ class EncodeCatRows(Filter[Iterable[Union[Any,Dense,Sparse]], Iterable[Union[Any
         if not catkeys:
             yield from rows
         else:
-            #cat_cols is list of numbers or list of lists
-            is_nums = not isinstance(catkeys[0],list)
             for row in rows:
                 row = list(row) if isinstance(row,tuple) else copy(row)
-
-                if is_nums:
-                    catset(row,catkeys)
-                else:
-                    for k in catkeys: catset(row,k)
+                catset(row,catkeys)
 
                 yield row
